@@ -336,7 +336,7 @@ def mon_stable(case, lines):
             elif k == K['RET'] and cur[t] is not None:
                 op = cur[t]
                 cur[t] = None
-                if op[0] == GETF:
+                if op[0] == GETF and len(op) == 4:
                     seen.pop((t, op[3]), None)
                 elif op[0] == FGET:
                     obs = (t, op[1], v)
